@@ -10,6 +10,6 @@ git -C /repo worktree add --detach /tmp/sd/x-wt HEAD >/dev/null
 mkdir -p /tmp/sd/x-verif
 rsync -a --delete --exclude target --exclude 'target-*' --exclude .git /verif/ /tmp/sd/x-verif/
 [ -d /tmp/sd/x-verif/target ] || cp -r /verif/target /tmp/sd/x-verif/target
-for f in /tmp/sd/x-verif/harness/Cargo.toml /tmp/sd/x-verif/harness/*/Cargo.toml; do sed -i 's#"/repo/cpp"#"/tmp/sd/x-wt/cpp"#; s#"/repo"#"/tmp/sd/x-wt"#' $f; done
+sed -i "s#/repo/cpp/include#/tmp/sd/x-wt/cpp/include#g" /tmp/sd/x-verif/harness/ffi/build.rs; for f in /tmp/sd/x-verif/harness/Cargo.toml /tmp/sd/x-verif/harness/*/Cargo.toml; do sed -i 's#"/repo/cpp"#"/tmp/sd/x-wt/cpp"#; s#"/repo"#"/tmp/sd/x-wt"#' $f; done
 ( cd /tmp/sd/x-verif/harness && cargo build --release --offline -q 2>&1 | grep -E "^error" -A5 || true )
 echo "ready: /tmp/sd/x-verif/target/release/vrun (VERIF_ROOT=/tmp/sd/x-verif)"
